@@ -261,7 +261,7 @@ var fragments = []string{
 	"() => HOLE", "function () { return HOLE }", "class { f = HOLE }", "class { static f = HOLE }", "class { #p = HOLE; g() { return this.#p } }",
 	"class { static { HOLE } }", "class { static #s = HOLE; static g() { return this.#s } }", "class { #m() { return HOLE } g() { return this.#m() } }",
 	"class { get #a() { return HOLE } g() { return this.#a } }", "class { #x; static h(o) { return #x in o } }",
-	"import('./other.js')", "import.meta.url", "/x(?<n>y)/s", "/(?<=a)b/u", "/a/v", "/a/d", "new.target", "super.x", "arguments", 
+	"import('./other.js')", "import.meta.url", "/x(?<n>y)/s", "/(?<=a)b/u", "/a/v", "/a/d", "new.target", "super.x", "arguments",
 	"(HOLE, HOLE)", "f(HOLE)", "HOLE ? HOLE : HOLE", "HOLE === null || HOLE === undefined ? undefined : a.b", "HOLE != null ? a : b", "'s' + HOLE + 't'",
 	"a === null || a === undefined ? undefined : a[HOLE]", "{ k: HOLE, [HOLE]: 1, m() { return HOLE } }", "(({ p, ...q }) => q)(HOLE)", "a?.b ?? (c ||= HOLE)",
 	"function ({ p = HOLE, ...q }, ...r) { return [p, q, r] }", "o.p?.q.r ?? s", "a ** -b", "(a **= HOLE)", "0x10n * 2n", "1_000_000", "typeof a === 'undefined'",
